@@ -8,6 +8,30 @@ arithmetic on `cap`.  Loops take fuel = remaining length + 1; `…_fuel` lemmas 
 -/
 namespace Pocket
 
+/-- `Filter::hyperloglog_offset` (NIP-45): only `{"#p":[<64 hex>],"kinds":[3]}` and
+`{"#e":[<64 hex>],"kinds":[7]}` with nothing else set; the offset is the value of hex character 32
+plus 8.  A byte that is not a hex character (incl. bytes ≥ 0x80) gives `None`. -/
+def hllOffset (f : FilterRec) : Option Nat :=
+  if f.ids.length ≠ 0 ∨ f.authors.length ≠ 0 ∨ f.kinds.length ≠ 1 ∨ f.limit ≠ U32MAX ∨ f.since ≠ 0 ∨
+      f.until ≠ U64MAX ∨ f.tags.length ≠ 1 then none
+  else
+    let letter : Option Bytes :=
+      match f.kinds.head? with
+      | some 3 => some [112]
+      | some 7 => some [101]
+      | _ => none
+    match letter, f.tags with
+    | some l, [t] =>
+      if t[0]? ≠ some l then none
+      else match t[1]? with
+        | some hex =>
+          if hex.length ≠ 64 then none
+          else match hexInv (hex.getD 32 0) with
+            | some v => some (v + 8)
+            | none => none
+        | none => none
+    | _, _ => none
+
 def isWs (b : Nat) : Bool := b == 32 || b == 9 || b == 10 || b == 13
 
 /-- `eat_whitespace` -/
